@@ -6,6 +6,7 @@
 package main
 
 import (
+	"bytes"
 	"fmt"
 	"math/rand"
 	"time"
@@ -26,12 +27,13 @@ type Meta struct {
 }
 
 type Op struct {
-	Kind string     `json:"k"` // put | get | del | tl | meta | setmeta
+	Kind string     `json:"k"` // put | get | del | tl | meta | setmeta | cser
 	W    segu.Write `json:"w,omitempty"`
 	Q    segu.Query `json:"q,omitempty"`
 	Thr  int64      `json:"thr,omitempty"`
-	Z    int        `json:"z,omitempty"` // location of the threshold time value (see segu.T)
-	M    *Meta      `json:"m,omitempty"` // setmeta
+	Z    int        `json:"z,omitempty"`  // location of the threshold time value (see segu.T)
+	M    *Meta      `json:"m,omitempty"`  // setmeta
+	K    int        `json:"kw,omitempty"` // cser: the Write call of Serialize at which the concurrent Put is started
 }
 
 // Build may contain setmeta ops (Storage.Put calls SetMetadata before every Segment.Put); Meta is the
@@ -251,6 +253,9 @@ func gen(r *rand.Rand, idx int, tier string) Input {
 		default:
 			in.Ops = append(in.Ops, Op{Kind: "meta"})
 		}
+		if lib.Chance(r, 0.08) { // save the original while a write arrives part-way through the stream
+			in.Ops = append(in.Ops, Op{Kind: "cser", W: segu.RandWrite(r, w, size), K: lib.Range(r, 3, 60)})
+		}
 		if lib.Chance(r, 0.15) { // SetMetadata on both copies after the reload, one field changed, then look
 			m := oneFieldChanged(r, in.Meta, r.Intn(4), class)
 			in.Ops = append(in.Ops, Op{Kind: "setmeta", M: &m}, Op{Kind: "meta"})
@@ -274,6 +279,23 @@ func del(s *segment.Segment, thr int64, z int) (string, bool) {
 		items = append(items, lib.Pair(lib.Nat(depth), lib.Z(t.Unix())))
 	})
 	return lib.List(items), gone
+}
+
+// hookWriter collects what Serialize writes and calls fire() once, before its k-th Write.
+type hookWriter struct {
+	buf   bytes.Buffer
+	n, k  int
+	fired bool
+	fire  func()
+}
+
+func (h *hookWriter) Write(p []byte) (int, error) {
+	h.n++
+	if h.n == h.k && !h.fired {
+		h.fired = true
+		h.fire()
+	}
+	return h.buf.Write(p)
 }
 
 func coqMetaIn(m Meta) string {
@@ -353,6 +375,35 @@ func run(in Input) (res lib.Result) {
 			s0.SetMetadata(string(op.M.Spy), op.M.Rate, string(op.M.Units), string(op.M.Agg))
 			s1.SetMetadata(string(op.M.Spy), op.M.Rate, string(op.M.Units), string(op.M.Agg))
 			ops = append(ops, "DSetMeta "+coqMetaIn(*op.M))
+		case "cser":
+			// Serialize the original into a writer that, at its K-th Write, lets another goroutine Put into the
+			// same segment and gives it 20 ms (with the lock held by Serialize the Put simply waits); the saved
+			// bytes must be the state before the Put or after it, never a mixture.  The copy gets a plain Put.
+			before := s0.VerifDump()
+			var cbs0 []segu.PutCB
+			done := make(chan struct{})
+			hw := &hookWriter{k: op.K, fire: func() {
+				go func() { cbs0 = segu.Put(s0, op.W); close(done) }()
+				select {
+				case <-done:
+				case <-time.After(20 * time.Millisecond):
+				}
+			}}
+			_ = s0.Serialize(hw)
+			if !hw.fired {
+				hw.fired = true
+				hw.fire()
+			}
+			<-done
+			after := s0.VerifDump()
+			dec := "None"
+			okLoad := false
+			if sd, err := segment.FromBytes(hw.buf.Bytes()); err == nil {
+				okLoad = true
+				dec = segu.CoqTree(sd.VerifDump())
+			}
+			ops = append(ops, "DConcSer "+coqW(op.W, cbs0)+" "+coqW(op.W, segu.Put(s1, op.W))+" "+segu.CoqTree(before)+" "+segu.CoqTree(after)+
+				" "+lib.Bool(okLoad)+" "+dec+" "+lib.Bytes(hw.buf.Bytes()))
 		}
 	}
 	e0, e1 := s0.VerifDump(), s1.VerifDump()
@@ -380,9 +431,9 @@ func run(in Input) (res lib.Result) {
 	return lib.Result{
 		Coq:        coq,
 		NonTrivial: levels >= 3 && ncuts >= 1 && len(in.Ops) >= 3,
-		Feat:       map[string]interface{}{"levels": levels, "nodes": nodes, "cuts": ncuts, "ops": len(in.Ops), "op_kinds": kinds, "bytes": len(b0), "meta_class": metaClass, "setmeta_before_save": nset + 1,
+		Feat: map[string]interface{}{"levels": levels, "nodes": nodes, "cuts": ncuts, "ops": len(in.Ops), "op_kinds": kinds, "bytes": len(b0), "meta_class": metaClass, "setmeta_before_save": nset + 1,
 			"meta_len": len(in.Meta.Spy) + len(in.Meta.Units) + len(in.Meta.Agg)},
-		Obs:        map[string]interface{}{"bytes": len(b0), "nodes": nodes, "levels": levels},
+		Obs: map[string]interface{}{"bytes": len(b0), "nodes": nodes, "levels": levels},
 	}
 }
 
